@@ -220,7 +220,9 @@ Definition div_int d x y old : M :=
     if round_not_requested d then Some (q, V_LGE) else
     if y =? -1 then Some (q, V_EQ) else
     do m <- mrem t x y;
-    if m <? 0 then round_lt_no t d q else if 0 <? m then round_gt_no t d q else Some (q, V_EQ)
+    (* fixed code: the truncated quotient is above the exact one iff remainder and divisor differ in sign *)
+    if negb (m =? 0) && xorb (m <? 0) (y <? 0) then round_lt_no t d q
+    else if negb (m =? 0) then round_gt_no t d q else Some (q, V_EQ)
   else
     do q <- mquot t x y;
     if round_not_requested d then Some (q, V_GE) else
@@ -263,7 +265,9 @@ Definition sub_mul_int d x y to : M :=
   else if ov =? -1 then
     if 0 <=? to then Some (set_pos_overflow p t d to) else Some (assign_nan p t V_UNKNOWN_NEG_OVERFLOW to)
   else
-    if to <=? 0 then Some (set_neg_overflow p t d to) else Some (assign_nan p t V_UNKNOWN_POS_OVERFLOW to).
+    (* fixed code: with to == 0 the overflow is certain only if -(max + 1) < min *)
+    if (to <? 0) || ((to =? 0) && (0 <=? emin p t + emax p t))
+    then Some (set_neg_overflow p t d to) else Some (assign_nan p t V_UNKNOWN_POS_OVERFLOW to).
 
 (* ---- power-of-two family (:1258-1531); [e] is the unsigned int exponent, ut the unsigned twin of t ---- *)
 Let ut := {| bits := bits t; sgn := false |}.
@@ -354,9 +358,10 @@ Fixpoint isqrt_loop (n : nat) (q r tt : Z) : option (Z * Z) :=
   | S n =>
       if tt =? 0 then Some (q, r) else
       do s <- mach t (q + tt);
-      do qr <- (if s <=? r then do r' <- mach t (r - s); do q' <- mach t (s + tt); Some (q', r') else Some (q, r));
+      (* fixed code: q = (q >> 1) + t  /  q >>= 1 *)
+      do qr <- (if s <=? r then do r' <- mach t (r - s); do q' <- mach t (q / 2 + tt); Some (q', r') else Some (q / 2, r));
       let '(q, r) := qr in
-      isqrt_loop n (q / 2) r (tt / 4)
+      isqrt_loop n q r (tt / 4)
   end.
 Definition isqrt_rem from : option (Z * Z) :=
   do t0 <- mshl t 1 (bits t - 2); isqrt_loop (Z.to_nat (bits t)) 0 from t0.
@@ -381,14 +386,14 @@ Fixpoint gcd_loop (n : nat) (wx wy : Z) : option Z :=
 Definition gcd_fuel := Z.to_nat (2 * bits t + 2).
 Definition gcd_int d x y (old : Z) : M :=
   do g <- gcd_loop gcd_fuel x y; abs_int d g g.
-(* abs<From1_Policy, From1_Policy> / abs<From2_Policy, From2_Policy>: the absolute values are taken under the policy
-   of the OPERANDS ([fx], [fy]: the operation [abs_int] of a configuration with that policy), into temporaries *)
+(* fixed code: the absolute values are taken under To_Policy into temporaries initialised with [to]; when one of
+   them is not exact the temporary is copied into the destination and its result word returned *)
 Definition lcm_int_from (fx fy : Z -> Z -> Z -> M) d x y (old : Z) : M :=
   if (x =? 0) || (y =? 0) then Some (0, V_EQ) else
-  do ax <- fx d x 0;
-  if negb (snd ax =? V_EQ) then Some (old, snd ax) else
-  do ay <- fy d y 0;
-  if negb (snd ay =? V_EQ) then Some (old, snd ay) else
+  do ax <- fx d x old;
+  if negb (snd ax =? V_EQ) then Some ax else
+  do ay <- fy d y old;
+  if negb (snd ay =? V_EQ) then Some ay else
   do g <- gcd_loop gcd_fuel (fst ax) (fst ay);
   do q <- div_int ROUND_NOT_NEEDED (fst ax) g old;
   mul_int d (fst q) (fst ay) (fst q).
@@ -400,11 +405,5 @@ Definition sgn_int x : Z := if 0 <? x then VR_GT else if x =? 0 then VR_EQ else 
 
 End Ops.
 
-(* lcm_assign_r on NATIVE operands: their policy is Checked_Number_Transparent_Policy (check_overflow = false) *)
-Definition lcm_int_native (c : cfg) d x y old : M :=
-  let cf := {| ty := ty c; pol := {| check_overflow := false; has_nan := false; has_inf := false; check_div_zero := false;
-      check_inf_add_inf := false; check_inf_sub_inf := false; check_inf_mul_zero := false; check_inf_div_inf := false;
-      check_inf_mod := false; check_sqrt_neg := false |};
-    lg_neg := lg_neg c; lg_add := lg_add c; lg_sub := lg_sub c; lg_mul := lg_mul c |} in
-  lcm_int_from c (abs_int cf) (abs_int cf) d x y old.
-
+(* lcm_assign_r on NATIVE operands: after the fix the operands' policy no longer matters *)
+Definition lcm_int_native (c : cfg) d x y old : M := lcm_int c d x y old.
